@@ -7,6 +7,7 @@
 
 """
 
+import sys
 import numpy as np
 
 from bisect import bisect_left
@@ -111,7 +112,15 @@ def bottleneck(dgm1, dgm2, matching=False):
         graph = {}
         for i in range(D.shape[0]):
             graph["{}".format(i)] = {j for j in range(D.shape[1]) if D[i, j] <= d}
-        res = HopcroftKarp(graph).maximum_matching()
+        # hopcroftkarp's depth-first search recurses once per layer of an
+        # augmenting path, which can run through all 2 * (M + N) vertices
+        # (e.g. two interleaved chains of bars); allow for that depth
+        recursion_limit = sys.getrecursionlimit()
+        sys.setrecursionlimit(max(recursion_limit, 4 * (M + N) + 200))
+        try:
+            res = HopcroftKarp(graph).maximum_matching()
+        finally:
+            sys.setrecursionlimit(recursion_limit)
         if len(res) == 2 * D.shape[0] and d <= bdist:
             bdist = d
             matching = res
